@@ -333,6 +333,14 @@ ModifyItem(id, i, qsize, dold) ==
         /\ evt' = [ev |-> "ModifyItem", sub |-> id, item |-> i, qsize |-> qsize, dold |-> dold,
                    fail |-> IF bad THEN "panic" ELSE "none", pre |-> <<>>, out |-> <<>>, st |-> P]
 
+\* SetMonitoringMode, one item (Subscription::set_monitoring_mode: only the mode changes, the queue stays)
+SetMode(id, i, mode) ==
+  /\ id \in DOMAIN subs
+  /\ i \in DOMAIN subs[id].items
+  /\ subs' = [subs EXCEPT ![id].items[i].mode = mode]
+  /\ UNCHANGED <<reqs, retx, respq, nodeVal, now>>
+  /\ evt' = [ev |-> "SetMode", sub |-> id, item |-> i, mode |-> mode, fail |-> "none", pre |-> <<>>, out |-> <<>>, st |-> P]
+
 \* a value written into the address space (by the server application or a Write service)
 Write(n, v) ==
   /\ nodeVal' = [nodeVal EXCEPT ![n] = v]
